@@ -15,7 +15,7 @@ from gmg import dag, ir, report, tab_ops, tab_smoother
 def shapes(tier):
     # finest-level grids: ntheta % 4 == 0 (so the coarse grid has even ntheta), nsc >= 3, lsr >= 3, nr odd
     if tier == "quick":
-        return [(7, 8, 3, False), (9, 8, 4, True), (7, 4, 4, False)]
+        return [(7, 8, 3, False), (9, 8, 4, True), (7, 4, 4, False), (9, 12, 4, False), (11, 16, 5, True)]
     return [(nr, nt, nsc, d) for (nr, nt) in ((7, 4), (7, 8), (9, 8), (9, 12), (11, 8)) for nsc in (3, 4, 5) if nr - nsc >= 3 for d in (False, True)]
 
 
